@@ -95,6 +95,7 @@ CORRUPT = {
     "Trace_BNFold": _bump_nested("y", lambda e: e.get("kind") == "layer"),
     "Trace_Export": _set("pred", 0, lambda e: e.get("kind") == "model" and e.get("indep") == 1),
     "Trace_ModelGraph": _set("src", 0),
+    "Trace_ModelGraphX": _set("src", 0),
     "Trace_AutoQ": _autoq,
 }
 
